@@ -112,11 +112,13 @@ package network
 //@   requires d.DefaultDesiredPriv != "" && RI(d.Channel.Q) && d.Channel.PromptSearchDepth >= 0 && graphOK(d)
 //@   ensures RI(d.Channel.Q)
 //@   at call! SendCommand#1 assert #commands-run-at-the-default-level old(d.CurrentPriv) == d.DefaultDesiredPriv || acquired == d.DefaultDesiredPriv
+//@   at call! SendCommand#1 assert #the-command-and-the-options-reach-the-generic-driver-unchanged arg0 == command && arg1 === opts
 //@   ensures #implicit-privilege-failure-is-a-privilege-error old(d.CurrentPriv) != d.DefaultDesiredPriv && acquired != d.DefaultDesiredPriv ==> isErr(result.1, util.ErrPrivilegeError) && result.0 == nil
 
 //@ func (*Driver).SendCommands [C04 C05]
 //@   requires d.DefaultDesiredPriv != "" && RI(d.Channel.Q) && d.Channel.PromptSearchDepth >= 0 && graphOK(d)
 //@   at call! SendCommands#1 assert #commands-run-at-the-default-level old(d.CurrentPriv) == d.DefaultDesiredPriv || acquired == d.DefaultDesiredPriv
+//@   at call! SendCommands#1 assert #the-commands-and-the-options-reach-the-generic-driver-unchanged arg0 === commands && arg1 === opts
 //@   ensures #implicit-privilege-failure-is-a-privilege-error old(d.CurrentPriv) != d.DefaultDesiredPriv && acquired != d.DefaultDesiredPriv ==> isErr(result.1, util.ErrPrivilegeError) && result.0 == nil
 
 //@ func (*Driver).SendCommandsFromFile [C04]
